@@ -2051,6 +2051,9 @@ def native_ok_with_sym(f):
             return True
     except TypeError:
         pass
+    mod = getattr(f, "__module__", None) or ""
+    if isinstance(mod, str) and (mod.startswith("contracts.") or mod.startswith("pyvc.")):
+        return True  # sidecar stubs / contracts are written to receive symbolic values
     n = getattr(f, "__name__", "")
     s = getattr(f, "__self__", None)
     if s is not None and type(s) in (list,) and n in ("append", "insert", "extend", "pop", "__setitem__"):
@@ -2183,6 +2186,16 @@ def _ext_pow(interp, a, b, m=None):
         raise Unmodelled("pow() with a negative exponent and a modulus")
     # square-and-multiply on bounded integers: prompt for any exponent
     return SymInt(POW(iexpr(a), iexpr(b)) % m)
+
+
+def _ext_sum(interp, it, start=0):
+    items = list(interp.iterate(it))
+    if not contains_sym(items) and not is_sym(start):
+        return sum(items, start)
+    acc = start
+    for x in items:
+        acc = interp.binop(ast.Add, acc, x)
+    return acc
 
 
 def _ext_print(interp, *a, **k):
@@ -2359,6 +2372,7 @@ DEFAULT_EXTERNALS = {
     max: _minmax(True),
     min: _minmax(False),
     abs: _ext_abs,
+    sum: _ext_sum,
     print: _ext_print,
     pow: _ext_pow,
     range: _ext_range,
